@@ -123,7 +123,7 @@ func c04Subst(c *core.Ctx, f, suffix string) string {
 // case-unique suffix (types live in a process-global registry).
 var c04Decl = [][]string{
 	{"(struct Pt$ [(field x: int64) (field y: int64)])", "(def p$ (Pt$ x:1 y:2))", "(hset p$ x: 5)", "{p$.y = 9}", "(set p$.x 3)", "(+ p$.x p$.y)"},
-	{"(func add$ [a:int64] [n:int64] (+ a 3))", "(add$ 4)", "(func two$ [a:int64 b:int64] [n:int64] (* a b))", "(two$ 3 (add$ 1))"},
+	{"(func add$ [a:int64] [n:int64] (+ a 3))", "(add$ 4)", "(func two$ [a:int64 b:int64] [n:int64] (* a b))", "(two$ 3 (add$ 1))", "(add$ a: 4)", "(two$ a: 3 b: 4)", "(two$ b: 4 a: 3)", "(+ 1 (two$ b: 2 a: (add$ a: 1)))", "(begin (two$ a: 1 b: 2) (two$ b: 5 a: 6))"},
 	{"(struct Q$ [(field z: int64)])", "(method [p:Q$] nrm$ [] [n:int64] 7)", "(interface I$ [(method nrm$ [] [n:int64])])", "(def q$ (Q$ z:2))", "q$.z"},
 	{"(var v$ int64)", "(var s$ string)", "(def w$ 3)", "(+ w$ 1)"},
 	{"(defmap zork$)", "(def z$ (zork$ a:1 b:\"x\"))", "(hget z$ a:)", "(hset z$ c: 3)", "(len (keys z$))"},
@@ -153,19 +153,29 @@ func init() {
 		Level: "exploration",
 		Rule: "three kinds of case. (1) generated core-language programs (C02 generator with recursion, tail-context compositions, labelled break/continue below let/newScope/cond, variadics, closures): after the successful evaluation the depths of the four VM stacks read through the hook accessor must be data=0 scope=1 addr=0 loop=0; every call observed through the public pre/post call hooks must have replaced its arguments by exactly one result and left the scope depth unchanged; the same forms evaluated one at a time in a second interpreter must give the same trace, the same final value and the same answers to a follow-up battery (together-vs-separately, real code on both sides); empty/whitespace/comment-only input must then return nil. " +
 			"(2) the declaration surface (struct, func, method, interface, var, defmap, package, defmac/macexpand, range, ++/+=/--, mdef and multiple assignment, infix blocks with if/else, every go-for header shape, labelled break/continue, selector and index assignment, lazy formals, lists/strings): each form separately and all together, same oracles. " +
-			"(3) one long-lived interpreter serves a history of 150 (quick) / 600 (thorough) mixed evaluations including failing ones; the depth vector is sampled at every quiescent point and must stay constant. non-trivial = distinct case whose evaluation performed at least one call and one scope push",
+			"(4) host-API sequences of 20 steps on one interpreter (EvalString, LoadString once and three times before one Run, ParseTokens+EvalExpressions, Apply at top level, Duplicate().EvalString, macro / lazy / range uses), each step's value judged by a model of the integer globals, rest state after every step, all globals read back and empty input probed every four steps. (3) one long-lived interpreter serves a history of 150 (quick) / 600 (thorough) mixed evaluations including failing ones; the depth vector is sampled at every quiescent point and must stay constant. non-trivial = distinct case whose evaluation performed at least one call and one scope push",
 		Assumptions: []string{
 			"growth of the main instruction buffer and of the Go heap is recorded but not judged (the VM appends every load to its main function by design)",
 			"per-call balance is not judged for evaluations in which an error occurred (hook pairing is lost) — C05 judges those",
 		},
-		NCases:       func(c *core.Ctx) int { return thorN(c, 2400, 40000) },
-		MustSee:      []string{"rest_state_checks", "calls_balanced", "together_vs_separately", "empty_input_probes", "idle_history_steps", "declaration_forms"},
+		NCases:       func(c *core.Ctx) int { return thorN(c, 2400, 40000) + thorN(c, 80, 800) },
+		MustSee:      []string{"rest_state_checks", "calls_balanced", "together_vs_separately", "empty_input_probes", "idle_history_steps", "declaration_forms", "api_steps"},
 		CaseTimeoutS: 30,
 		Run:          c04Run,
 	})
 }
 
 func c04Run(c *core.Ctx, i int) *core.Result {
+	if base := thorN(c, 2400, 40000); i >= base {
+		// host-API sequences (apiseq.go): only steps that succeed
+		res := &core.Result{Nontrivial: true}
+		apiSeqRun(res, core.NewRng(c.Seed, "C04api", i, 0), 20, false, "api:")
+		if res.Input == "" {
+			res.Input = fmt.Sprintf("host-API sequence %d", i-base)
+			res.Hash = core.HashOf(res.Input)
+		}
+		return res
+	}
 	switch {
 	case i%12 == 11:
 		return c04History(c, i)
